@@ -308,6 +308,8 @@ def _to_bytes(v, size, signed, big, exc=None):
     if isinstance(v, SBool):
         v = SInt.of(v)
     if _isym(v):
+        if isinstance(v.prov, tuple) and v.prov[0] == 'le' and v.prov[2] == size and v.lo is not None and v.lo >= lo and v.hi <= hi:
+            return list(v.prov[1][::-1]) if big else list(v.prov[1])
         if not v.bv:
             if bool((v < lo) | (v > hi)):
                 raise exc()
@@ -463,7 +465,7 @@ class SArray:
     """array.array stand-in (native little-endian like this platform)"""
 
     def __init__(self, typecode, init=()):
-        if typecode not in _ACODES or typecode in 'df':
+        if typecode not in _ACODES:
             raise OutOfModel('array typecode %r' % typecode)
         self.typecode = typecode
         self.itemsize, self.signed = _ACODES[typecode]
@@ -476,6 +478,19 @@ class SArray:
 
     def _chk(self, v):
         size, signed = self.itemsize, self.signed
+        if signed is None:
+            # float array (R-float: items are exact reals); ints become reals like array('d') makes them floats
+            if isinstance(v, SReal):
+                return v
+            if isinstance(v, SInt):
+                return SReal.of_int(v)
+            if isinstance(v, SBool):
+                return SReal(rexpr(v))
+            if isinstance(v, (int, float)):
+                return float(v)
+            if isinstance(v, Fraction):
+                return v
+            raise TypeError('must be real number, not %s' % type(v).__name__)
         lo, hi = (-(1 << (8 * size - 1)), (1 << (8 * size - 1)) - 1) if signed else (0, (1 << (8 * size)) - 1)
         if _isym(v):
             if not v.bv:
@@ -506,20 +521,41 @@ class SArray:
             self.append(v)
 
     def frombytes(self, data):
+        if self.signed is None:
+            d = SBytes(data)
+            if any(_isym(b) for b in d.b):
+                raise OutOfModel('float array frombytes on symbolic bytes')
+            self.a.extend(_array.array(self.typecode, bytes(d.b)).tolist())
+            return
         data = SBytes(data)
         if len(data) % self.itemsize:
             raise ValueError('bytes length not a multiple of item size')
         for i in range(0, len(data), self.itemsize):
-            self.a.append(_from_bytes(data.b[i:i + self.itemsize], self.signed, sys.byteorder == 'big'))
+            bs = data.b[i:i + self.itemsize]
+            r = _from_bytes(bs, self.signed, sys.byteorder == 'big')
+            if _isym(r) and self.itemsize > 1 and r.prov is None:
+                r.prov = ('le', list(bs) if sys.byteorder != 'big' else list(bs[::-1]), self.itemsize)
+            self.a.append(r)
 
     def tobytes(self):
+        if self.signed is None:
+            raise OutOfModel('float array tobytes')
         out = []
         for v in self.a:
             out.extend(_to_bytes(v, self.itemsize, self.signed, sys.byteorder == 'big'))
         return _norm(SBytes(out))
 
     def byteswap(self):
-        self.a = [_from_bytes(_to_bytes(v, self.itemsize, self.signed, True), self.signed, False) for v in self.a]
+        if self.itemsize == 1:
+            return
+        out = []
+        for v in self.a:
+            bs = _to_bytes(v, self.itemsize, self.signed, True)      # big-endian bytes of the old value
+            r = _from_bytes(bs, self.signed, False)                  # ... read little-endian = the swapped value
+            if _isym(r):
+                r.prov = ('le', list(bs), self.itemsize)             # its little-endian byte expansion, kept structurally
+            out.append(r)
+        self.a = out
 
     def __len__(self):
         return len(self.a)
@@ -574,7 +610,10 @@ class SArray:
     def __eq__(self, o):
         if not isinstance(o, SArray) or len(o.a) != len(self.a):
             return False
-        conds = [bexpr(SInt.of(x) == y) for x, y in zip(self.a, o.a)]
+        if self.signed is None:
+            conds = [rexpr(x) == rexpr(y) for x, y in zip(self.a, o.a)]
+        else:
+            conds = [bexpr(SInt.of(x) == y) for x, y in zip(self.a, o.a)]
         return SBool(z3.And(*conds)) if conds else True
 
     def __ne__(self, o):
@@ -590,10 +629,6 @@ class SArray:
 
 
 def array_ctor(typecode, init=()):
-    if typecode in 'df':
-        if isinstance(init, (SBytes, SArray)) or any(is_sym(v) for v in init):
-            raise OutOfModel('float array with symbolic content')
-        return _array.array(typecode, init)
     if isinstance(init, SArray):
         init = init.a
     return SArray(typecode, init)
@@ -814,7 +849,7 @@ def float_shim(x=0.0):
     if isinstance(x, SReal):
         return x
     if isinstance(x, SInt):
-        return SReal(x.as_real_expr())
+        return SReal.of_int(x)
     return float(x)
 
 
